@@ -231,7 +231,9 @@ func c39walk(b []byte) (consumed int, mx uint32, complete bool) {
 	n := binary.BigEndian.Uint32(b)
 	b = b[4:]
 	if n > MaxNumHeaders {
-		return 4, 0, false
+		// rejected by bfe today; reported as a giant field so that the harness never relies on
+		// that rejection for its own survival (make(map, 2^32-1) is fatal, not a panic)
+		return 4, n, false
 	}
 	for i := uint32(0); i < n; i++ {
 		for j := 0; j < 2; j++ {
@@ -252,7 +254,69 @@ func c39walk(b []byte) (consumed int, mx uint32, complete bool) {
 	return total - len(b), mx, true
 }
 
-func c39blockMaxLen(b []byte) uint32 { _, mx, _ := c39walk(b); return mx }
+// c39sim follows the reader side of one connection's header compression context with the
+// harness's own flate readers: for the header-carrying frame that starts at the head of the wire
+// it returns the decompressed bytes any streaming reader has in front of it (what earlier frames
+// left unread + this frame's payload). Safety net only, valid while harness and bfe agree on all
+// frame boundaries so far (the caller stops at the first disagreement).
+type c39sim struct {
+	hist    []byte // preset dictionary + everything decompressed so far (last 32 KiB)
+	pending []byte
+	started bool
+}
+
+func c39newSim() *c39sim { return &c39sim{hist: []byte(headerDictionary)} }
+
+// next looks at the frame at the head of wire. ok=false: a reader would meet a length/count
+// field above c39SafeLen (field) in the block (shown).
+func (s *c39sim) next(wire []byte) (ok bool, field uint32, shown []byte) {
+	if len(wire) < 8 || wire[0]&0x80 == 0 {
+		return true, 0, nil
+	}
+	typ := binary.BigEndian.Uint16(wire[2:])
+	fixed := 4
+	switch typ {
+	case 1:
+		fixed = 10
+	case 2, 8:
+	default:
+		return true, 0, nil
+	}
+	length := int(binary.BigEndian.Uint32(wire[4:]) & 0xffffff)
+	if length < fixed {
+		return false, uint32(length) - uint32(fixed), nil // bfe's payload size underflows
+	}
+	if 8+length > len(wire) {
+		length = len(wire) - 8
+		if length < fixed {
+			return true, 0, nil
+		}
+	}
+	payload := wire[8+fixed : 8+length]
+	if !s.started {
+		if len(payload) < 6 {
+			return true, 0, nil
+		}
+		payload = payload[6:] // zlib header with FDICT + DICTID
+		s.started = true
+	}
+	fr := flate.NewReaderDict(bytes.NewReader(payload), s.hist)
+	out, _ := io.ReadAll(io.LimitReader(fr, 1<<26))
+	s.hist = append(s.hist, out...)
+	if len(s.hist) > 32768 {
+		s.hist = append([]byte(nil), s.hist[len(s.hist)-32768:]...)
+	}
+	d := append(s.pending, out...)
+	used, mx, complete := c39walk(d)
+	s.pending = nil
+	if complete {
+		s.pending = append([]byte(nil), d[used:]...)
+	}
+	if len(d) > 64 {
+		d = d[:64]
+	}
+	return mx <= c39SafeLen, mx, d
+}
 
 // c39want is the reference form of a written header set: lower-cased names, values in the
 // NUL-join/split normal form of the wire format.
@@ -474,6 +538,7 @@ func c39runSeq(r *vk.Run, id string, syms []*c39sym) {
 		return
 	}
 	defer rf.ReleaseWriter()
+	sim := c39newSim()
 	for i, w := range written {
 		cause := func(kind string) string {
 			if partialAt >= 0 && i >= partialAt {
@@ -488,13 +553,11 @@ func c39runSeq(r *vk.Run, id string, syms []*c39sym) {
 			}
 			return "roundtrip:" + w.sym.typ + ":" + cl + ":" + kind
 		}
-		if w.sym.hs != nil && !(partialAt >= 0 && i >= partialAt) {
-			var blk bytes.Buffer
-			writeHeaderValueBlock(&blk, w.sym.hs.h)
-			if mx := c39blockMaxLen(blk.Bytes()); mx > c39SafeLen {
+		if !(partialAt >= 0 && i >= partialAt) {
+			if ok, field, shown := sim.next(rd.b[rd.off:]); !ok {
 				r.Outcome("roundtrip:block-with-giant-length-field")
-				r.Violation(cause("block-declares-giant-field"), id, fmt.Sprintf("frame %d %s: the header block produced by writeHeaderValueBlock is %d bytes %q but contains a length field of %d bytes; the reader would allocate that much (reader not run)",
-					i, w.sym.name, blk.Len(), blk.Bytes(), mx))
+				r.Violation(cause("block-declares-giant-field"), id, fmt.Sprintf("frame %d %s: on the wire written by the Framer a reader meets, in this frame's name/value block (first bytes %q), a count/length field of %d; bfe's reader would allocate that much (reader not run)",
+					i, w.sym.name, shown, field))
 				return
 			}
 		}
@@ -637,11 +700,8 @@ func c39partA(r *vk.Run, hsets []*c39hset) (nsym, depth, nsym4 int) {
 		if hs.quick || r.Thorough() {
 			syms = append(syms, c39hdrSyms(hs)...)
 		}
-		switch hs.class {
-		case "ascii-lower", "ascii-upper", "multi-header", "nonascii-lower", "empty-set":
-			if hs.quick {
-				small = append(small, c39hdrSyms(hs)...)
-			}
+		if hs.quick && !hs.lenChanging() {
+			small = append(small, c39hdrSyms(hs)...)
 		}
 	}
 	plain := c39plainSyms()
